@@ -34,7 +34,7 @@ LEVEL_NOTE = ("Trusted base: sim/world.py, sim/node.py, spec/frames.py. Pools ar
 QUICK_WORKERS = 4
 WORKERS = 14
 
-STATES = ('open', 'noconn', 'shutdown', 'error', 'lost')
+STATES = ('open', 'noconn', 'shutdown', 'error', 'lost', 'orphan')
 TRIGGERS = ('async', 'execute', 'set_keyspace')
 USE_RE = re.compile(r'\s*use\s+("?)ks2\1\s*;?\s*$', re.I)
 
@@ -57,7 +57,7 @@ def systematic_cases(max_nodes):
 
 def random_case(rng):
     n = rng.choice([1, 2, 2, 3, 3, 4])
-    weights = [6, 2, 2, 2, 2]
+    weights = [6, 2, 2, 2, 2, 2]
     return {'proto': rng.choice([2, 3, 4]), 'states': tuple(rng.choices(STATES, weights)[0] for _ in range(n)),
             'trigger': rng.choice(TRIGGERS), 'timeout': rng.choice([None, None, 10.0, 3.0]), 'init_ks': rng.choice([None, 'ks1']),
             'order': rng.randrange(24), 'core': rng.choice([1, 2]), 'sys': False}
@@ -78,6 +78,15 @@ def run_history(seed, case):
     state = dict(zip(addrs, states))
     ch = W.RandomChooser(random.Random(seed * 11 + 3), p_time=0.0, p_preempt=rng.choice([0.0, 0.1, 0.3]))
     env = SimEnv(ch, addresses=addrs, max_virtual_time=2000.0)
+    # state 'orphan': the pool's connection is past its orphan threshold (three requests timed out on the client), so the next borrow makes the
+    # pool replace it - here while the switch's per-connection USE is still unanswered.  Driven for v3+ pools with the async trigger and a
+    # coordinator that is not such a node (a borrow for the USE statement itself would start the replacement before the switch); otherwise
+    # the node simply behaves as 'open'.
+    orphan_nodes = [a for a in addrs if state[a] == 'orphan']
+    orphan_active = bool(orphan_nodes) and trigger == 'async' and proto >= 3 and any(state[a] in ('open', 'lost', 'error') for a in addrs)
+    if orphan_active:
+        env.conn_class.max_in_flight = 8
+        env.conn_class.orphaned_threshold = 3
     hold_mode = trigger == 'async'
     lost_kind = rng.choice(['reset', 'close'])
     mute = {}                       # address -> number of OPTIONS still to be swallowed
@@ -111,6 +120,8 @@ def run_history(seed, case):
         uid = uid_of(q)
         if uid is not None:
             r = node.rows(cstate, req, ECHO_COLS, [[uid, a]], 'ks', 't')
+            if plan.get(uid) == 'silent':
+                return ('silence',)
             return ('hold', r[1]) if plan.get(uid) == 'hold' else r
         m = USE_RE.match(q)
         if not m:
@@ -190,6 +201,24 @@ def run_history(seed, case):
             return pool
 
         # ---- drive the pools into their states
+        R['orphan_pools'] = 0
+        if orphan_active:
+            for a in orphan_nodes:
+                for _ in range(3):
+                    uid = next(uid_counter)
+                    plan[uid] = 'silent'
+                    session.execute_async(uid_query(uid), host=hosts[a], timeout=0.3)
+            w.settle(advance=False)
+            w.advance_to(w.now + 0.5)
+            w.settle(advance=False)
+            with w.inspect():
+                for a in orphan_nodes:
+                    pool = session._pools.get(hosts[a])
+                    c = pool._connection if pool is not None else None
+                    if c is None or not c.orphaned_threshold_reached or pool.is_shutdown:
+                        R['skip'] = 'state orphan not reached'
+                    else:
+                        R['orphan_pools'] += 1
         for a in addrs:
             if state[a] == 'noconn':
                 mute[a] = 8          # connection attempts in the window do not see SUPPORTED yet: they sit in the factory
@@ -235,13 +264,15 @@ def run_history(seed, case):
         # ---- the switch
         outcome = []
         usable = [a for a in addrs if state[a] in ('open', 'lost', 'error')]
-        coord = hosts[rng.choice(usable)] if usable and rng.random() < 0.8 else None     # else: whatever the load balancer yields first
+        coord = hosts[rng.choice(usable)] if usable and (rng.random() < 0.8 or orphan_active) else None     # else: whatever the load balancer yields first
         if trigger == 'async':
             f = session.execute_async("USE ks2", host=coord)
             f.add_callbacks(lambda rows: outcome.append(('ok', w.now)), lambda exc: outcome.append(('err', w.now, exc)))
             w.settle(advance=False)
             pending = [h for h in env.net.held if not h.done and USE_RE.match(h.req.get('query') or '')]
             acts = [('release', h) for h in pending] + [('lose', c) for c in lost_conns]
+            if orphan_active:
+                acts += [('borrow', a) for a in orphan_nodes]        # a request to that host: the pool starts replacing its connection
             if rng.random() < 0.4:
                 acts += [('handshake', h) for h in env.net.held if not h.done and h.req['op'] == 'OPTIONS']     # the replacement may finish in the middle
             perms = None
@@ -259,6 +290,9 @@ def run_history(seed, case):
                     obj.release()
                 elif kind == 'handshake':
                     obj.release()
+                elif kind == 'borrow':
+                    session.execute_async(uid_query(next(uid_counter)), host=hosts[obj], timeout=5.0)
+                    w.settle(advance=False)
                 else:
                     env.net.server_close(obj, reset=lost_kind == 'reset')
                 if rng.random() < 0.7:
@@ -574,7 +608,7 @@ def run(ctx):
     from vlib.run import Inconclusive
     from sim.world import WorldLimit
     ctx.rule = ("a case is one history: protocol (v2 pools with 1-2 connections / v3+ single-connection pools), 1-4 pools each in a state from "
-                "{open, no connection, shut down, USE error, USE swallowed then connection lost}, trigger (execute_async with held answers released "
+                "{open, no connection, shut down, USE error, USE swallowed then connection lost, past its orphan threshold and replaced while the USE is outstanding}, trigger (execute_async with held answers released "
                 "in a chosen order / execute / set_keyspace with chooser-picked delivery order), request timeout (none or finite), initial keyspace; "
                 "every fourth history instead runs 2-3 consecutive switches on one session with all pools open (same target repeated after a failed attempt, "
                 "A->B->A, A->B->C; per switch and node the keyspace is accepted or refused) and applies (a)(b)(c) after every switch; "
@@ -682,6 +716,7 @@ def run(ctx):
             ctx.count("connections_checked_after_success", R['checked_conns'])
             ctx.count("probe_requests_located_on_the_wire", R['probes'])
             ctx.count("connections_lost_and_replaced_after_success", R['replaced_after'])
+            ctx.count("successful_switches_with_orphan_threshold_replacement_during_the_switch", 1 if R.get('orphan_pools') else 0)
         else:
             ctx.count("switches_reporting_error")
             if "OperationTimedOut" in repr(R['outcome'][2]) and any(not c['called_back'] for c in R['calls']):
@@ -708,4 +743,4 @@ def run(ctx):
     ctx.floor_counters = {"histories": 60, "pool_callbacks_observed": 60, "successful_switches": 15, "switches_reporting_error": 15,
                           "connections_checked_after_success": 25, "probe_requests_located_on_the_wire": 25,
                           "sequence_histories": 15, "sequence_switches_repeating_a_target_that_failed_before": 5, "sequence_connections_checked_after_success": 15,
-                          "pools_in_state_noconn": 10, "pools_in_state_shutdown": 10, "pools_in_state_error": 10, "pools_in_state_lost": 10}
+                          "pools_in_state_noconn": 10, "pools_in_state_orphan": 10, "successful_switches_with_orphan_threshold_replacement_during_the_switch": 3, "pools_in_state_shutdown": 10, "pools_in_state_error": 10, "pools_in_state_lost": 10}
